@@ -21,7 +21,7 @@ class UnitError(Exception):
 # --------------------------------------------------------------------------
 # contracts.vrs parsing
 
-SECTION_KW = ("before_tail", "body_entry", "before", "after", "requires", "ensures", "invariant", "invariant_except_break", "ensures_loop", "decreases", "entry", "header", "props", "ret", "flags", "iter", "recommends", "before_body_end")
+SECTION_KW = ("cancel_safe", "before_tail", "body_entry", "before", "after", "requires", "ensures", "invariant", "invariant_except_break", "ensures_loop", "decreases", "entry", "header", "props", "ret", "flags", "iter", "recommends", "before_body_end")
 
 
 class Clause:
@@ -80,6 +80,21 @@ def parse_contracts(path):
             cur_fn.after_stmts.append(cur)
             cur.raw["entry"] = ""
             sec = "entry"
+            continue
+        if line.startswith("@await_matching "):
+            rx = line[len("@await_matching "):].strip()
+            cur = Contract("await", rx)
+            cur_fn.awaits_matching = getattr(cur_fn, "awaits_matching", [])
+            cur_fn.awaits_matching.append(cur)
+            sec = None
+            continue
+        if line.startswith("@await "):
+            k = line.split()[1]
+            k = "all" if k == "all" else int(k)
+            cur = Contract("await", k)
+            cur_fn.awaits = getattr(cur_fn, "awaits", {})
+            cur_fn.awaits[k] = cur
+            sec = None
             continue
         if line.startswith("@after_let "):
             nm = line.split()[1]
@@ -273,8 +288,8 @@ class Unit:
         if "R7" in enabled:
             t, n = R.r7_expand_repo_macros(t, os.path.join(REPO, "p2panda-store/src/macros.rs"))
             self._count("R7", n)
-        for r in ("R2", "R5", "R4", "R6", "R16", "R17", "R17b", "R22", "R3", "R10", "R15", "R18", "R18b", "R20"):
-            if r in enabled or (r == "R17b" and "R17" in enabled):
+        for r in ("R25", "R2", "R5", "R4", "R6", "R16", "R17", "R17b", "R22", "R3", "R10", "R15", "R18", "R18b", "R20"):
+            if r in enabled or (r == "R17b" and "R17" in enabled) or r == "R25":
                 t, n = R.RULES[r](t)
                 self._count(r, n)
         if "R12" in enabled:
@@ -290,7 +305,7 @@ class Unit:
             self._count("R23", n)
         aw = it.opts.get("await_erase", self.cfg.get("await_erase"))
         if aw:
-            t, n = R.r9_await_erasure(t, aw)
+            t, n = R.r9_await_erasure(t, aw, mark=bool(it.opts.get("await_marks", self.cfg.get("await_marks", False))))
             self._count("R9", n)
             if it.opts.get("async_erase", self.cfg.get("async_erase", False)):
                 t, n = R.r9_async_fn_erasure(t)
@@ -318,12 +333,22 @@ class Unit:
     def splice_fn(self, it: Item, text: str, g: Gen, canary=False):
         c = self.contracts.get(it.name)
         fp = L.FnParts(text)
-        name = fp.name + ("__canary" if canary else "")
+        variant = canary if isinstance(canary, str) else None   # "effects": twin carrying only the after-effect cancel-point obligations
+        if variant:
+            canary = False
+        self._variant = variant
+        name = fp.name + ("__canary" if canary else "") + ("__" + variant if variant else "")
         props = (c.props if c and c.props else it.opts.get("props", self.props))
-        fq = it.name + ("__canary" if canary else "")
+        fq = it.name + ("__canary" if canary else "") + ("__" + variant if variant else "")
         segs = []
         if c and "loop_isolation_false" in c.flags:
             segs.append(("t", "#[verifier::loop_isolation(false)]\n"))
+        if c and "may_not_terminate" in c.flags:
+            # the function legitimately waits forever (e.g. for the next item): partial correctness only; listed in evidence
+            segs.append(("t", "#[verifier::exec_allows_no_decreases_clause]\n"))
+            d = "termination of %s is not proved (it may wait forever by design)" % it.name
+            if d not in self.dropped:
+                self.dropped.append(d)
         head = text[:fp.name_span[0]] + name + text[fp.name_span[1]:fp.params_close + 1]
         if fp.ret_span:
             rt = text[fp.ret_span[0]:fp.ret_span[1]].strip()
@@ -342,6 +367,9 @@ class Unit:
                 meta = None
                 if canary:
                     meta = dict(region="canary_clause", fn=fq)
+                elif variant and kindname != "requires":
+                    segs.append(("t", indent + "    " + cl.text.strip() + ",\n"))
+                    continue
                 elif kindname == "requires":
                     meta = dict(region="requires", fn=fq, label=cl.label)
                 else:
@@ -389,9 +417,9 @@ class Unit:
         if buf:
             g.emit(buf[:-1] if buf.endswith("\n") else buf)
         hi = g.cur() - 1
-        reg = g.region(lo, hi, kind="canary" if canary else "fn", fn=fq, item=it.name, props=props,
+        reg = g.region(lo, hi, kind="canary" if canary else "variant" if variant else "fn", fn=fq, item=it.name, props=props,
                        file=it.file, line=it.line)
-        if not canary:
+        if not canary and not variant:
             self.obligations.append(dict(id="%s::%s.safety" % (self.name, it.name), fn=it.name, kind="safety",
                                          label="safety", props=props, lo=lo, hi=hi,
                                          text="no overflow/underflow, bounds, callee preconditions, no reachable panic"))
@@ -464,6 +492,43 @@ class Unit:
                 if len(hits) != 1:
                     raise LostAnchor("%s: `let %s` anchor of %s matches %d statements" % (it.file, nm, it.name, len(hits)))
                 inserts.append((hits[0], "entry", ac.raw["entry"], None))
+            if getattr(c, "awaits", None) or getattr(c, "awaits_matching", None):
+                # R9c: the await points of the function (markers left by the await erasure); cancellation-point obligations
+                # are spliced in front of the statement that contains the await (innermost enclosing block).
+                #   @await all            clauses checked at EVERY await point
+                #   @await k              clauses checked at the k-th await point
+                #   @await_matching RX    clauses checked at every await point whose statement matches RX (e.g. calls with a
+                #                         durable effect: the clause talks about the state the effect would make durable)
+                marks = [k.start() for k in re.finditer(re.escape(R.AWAIT_MARK), body)]
+                awaits = getattr(c, "awaits", {})
+                per_stmt = {}
+                for idx, p in enumerate(marks, 1):
+                    blocks = L.enclosing_blocks(m, p)
+                    bo_ = blocks[-1][0] if blocks else 0
+                    bc_ = L.match_close(m, bo_)
+                    st = [s_ for s_ in R._split_stmts(body, m, bo_ + 1, bc_) if s_[0] <= p < s_[1]]
+                    if not st:
+                        raise LostAnchor("%s: statement of await point #%d of %s not found" % (it.file, idx, it.name))
+                    # text of the awaited expression: from the statement start up to the marker
+                    head = m[st[0][0]:p]
+                    cls = []
+                    if "all" in awaits:
+                        cls += [(cl, "point") for cl in awaits["all"].sections.get("cancel_safe", [])]
+                    if idx in awaits:
+                        cls += [(cl, "point") for cl in awaits[idx].sections.get("cancel_safe", [])]
+                    for am in getattr(c, "awaits_matching", []):
+                        if re.search(am.key, head):
+                            cls += [(cl, "effect") for cl in am.sections.get("cancel_safe", [])]
+                    if cls:
+                        per_stmt.setdefault(st[0][0], []).append((idx, cls))
+                for k in awaits:
+                    if k != "all" and k > len(marks):
+                        raise LostAnchor("%s: await point #%d of %s not found" % (it.file, k, it.name))
+                for am in getattr(c, "awaits_matching", []):
+                    if not any(re.search(am.key, m[max(0, p - 400):p]) for p in marks):
+                        raise LostAnchor("%s: no await point of %s matches /%s/" % (it.file, it.name, am.key))
+                for pos_, lst in per_stmt.items():
+                    inserts.append((pos_, "await", lst, None))
             if "entry" in c.raw:
                 inserts.append((1, "entry", c.raw["entry"], None))
             if "before_tail" in c.raw:
@@ -485,6 +550,23 @@ class Unit:
                 pos = p
             elif kind == "entry":
                 segs.append(("t", body[pos:p] + "\n" + payload.strip() + "\n"))
+                pos = p
+            elif kind == "await":
+                # cancellation-point obligation: one named assertion per clause, in front of the awaiting statement
+                segs.append(("t", body[pos:p] + "\nproof {\n"))
+                props = (c.props if c and c.props else it.opts.get("props", self.props))
+                for (idx, clauses) in payload:
+                    for (cl, ckind) in clauses:
+                        var = getattr(self, "_variant", None)
+                        if ckind == "effect" and var != "effects":
+                            continue      # after-effect obligations live in the `__effects` twin (a failed assertion is assumed afterwards)
+                        if canary or (var == "effects" and ckind != "effect"):
+                            segs.append(("t", "    assert(" + cl.text.strip() + ");\n"))
+                        else:
+                            segs.append(("c", "    assert(" + cl.text.strip() + ");",
+                                         dict(obl=dict(id="%s::%s.await%d#%s" % (self.name, it.name, idx, cl.label), fn=it.name,
+                                                       kind="cancel_point", label=cl.label, props=cl.props or props, text=cl.text.strip()))))
+                segs.append(("t", "}\n"))
                 pos = p
             elif kind == "loop":
                 kw_pos, kw, bo = extra
@@ -591,6 +673,8 @@ class Unit:
                     if want_canary and c is not None and "no_canary" not in c.flags and not it.opts.get("no_canary") \
                             and not (it.opts.get("impl_header", it.impl_header) and re.search(r"\bfor\b", L.mask(it.opts.get("impl_header", it.impl_header)))):
                         twins.append(True)
+                    if c is not None and getattr(c, "awaits_matching", None):
+                        twins.append("effects")
                     for canary in twins:
                         if it.kind == "method":
                             hdr = it.opts.get("impl_header", it.impl_header)
@@ -605,7 +689,7 @@ class Unit:
                             g.emit("}")
                     self.functions.append(dict(name=it.name, repo_file=it.file, line=it.line,
                                                sha256_of_extracted_text=it.sha, contracted=c is not None,
-                                               canary=len(twins) > 1))
+                                               canary=True in twins))
                 else:
                     # verifier-only attributes (no run-time meaning), e.g. reject_recursive_types
                     for a in it.opts.get("attrs", []):
